@@ -270,7 +270,161 @@ def _introspect_fun(
     return fis
 
 
-class IntroVisitor(ast.NodeVisitor):
+def _arg_names(args: ast.arguments) -> List[str]:
+    res = [a.arg for a in getattr(args, "posonlyargs", []) + args.args + args.kwonlyargs]
+    if args.vararg is not None:
+        res.append(args.vararg.arg)
+    if args.kwarg is not None:
+        res.append(args.kwarg.arg)
+    return res
+
+
+_COMPREHENSIONS = (ast.ListComp, ast.SetComp, ast.DictComp, ast.GeneratorExp)
+
+
+class _BoundNamesVisitor(ast.NodeVisitor):
+    """
+    The names bound in one scope (a function body, the body of a class, the targets of a comprehension),
+    not in the scopes nested in it, and the names that the scope declares global.
+    """
+
+    def __init__(self) -> None:
+        self.bound: Set[str] = set()
+        self.declared_global: Set[str] = set()
+
+    def visit_Name(self, node: ast.Name) -> Any:
+        if isinstance(node.ctx, (ast.Store, ast.Del)):
+            self.bound.add(node.id)
+
+    def visit_Global(self, node: ast.Global) -> Any:
+        self.declared_global.update(node.names)
+
+    def visit_ExceptHandler(self, node: ast.ExceptHandler) -> Any:
+        if node.name is not None:
+            self.bound.add(node.name)
+        self.generic_visit(node)
+
+    def _visit_nested_function(self, node: Any) -> Any:
+        # The name of the function is bound here; its body is another scope. The decorators, the default
+        # values and the annotations are evaluated here.
+        self.bound.add(node.name)
+        for n in node.decorator_list + node.args.defaults + node.args.kw_defaults:
+            if n is not None:
+                self.visit(n)
+
+    visit_FunctionDef = _visit_nested_function
+    visit_AsyncFunctionDef = _visit_nested_function
+
+    def visit_ClassDef(self, node: ast.ClassDef) -> Any:
+        self.bound.add(node.name)
+        for n in node.decorator_list + node.bases + [k.value for k in node.keywords]:
+            self.visit(n)
+
+    def visit_Lambda(self, node: ast.Lambda) -> Any:
+        for n in node.args.defaults + node.args.kw_defaults:
+            if n is not None:
+                self.visit(n)
+
+    def _visit_comprehension(self, node: Any) -> Any:
+        # The targets are local to the comprehension. An assignment expression inside a comprehension
+        # binds its target in the enclosing scope.
+        todo: List[ast.AST] = list(ast.iter_child_nodes(node))
+        while todo:
+            n = todo.pop()
+            if isinstance(n, ast.NamedExpr) and isinstance(n.target, ast.Name):
+                self.bound.add(n.target.id)
+            if not isinstance(n, (ast.Lambda, ast.FunctionDef, ast.ClassDef)):
+                todo.extend(ast.iter_child_nodes(n))
+
+    visit_ListComp = _visit_comprehension
+    visit_SetComp = _visit_comprehension
+    visit_DictComp = _visit_comprehension
+    visit_GeneratorExp = _visit_comprehension
+
+
+def _bound_names(nodes: Sequence[ast.AST]) -> Tuple[Set[str], Set[str]]:
+    v = _BoundNamesVisitor()
+    for n in nodes:
+        v.visit(n)
+    return (v.bound, v.declared_global)
+
+
+class _ScopedVisitor(ast.NodeVisitor):
+    """
+    A visitor that knows which names are local at the point it is visiting: the scopes nested in a function
+    (lambdas, comprehensions, nested functions and classes) bind their own names, which hide the names of the
+    module inside these scopes only.
+    """
+
+    _scope_locals: Set[str]
+
+    def _visit_in_scope(
+        self, params: Sequence[str], scope_nodes: Sequence[ast.AST], nodes: Sequence[ast.AST]
+    ) -> None:
+        (bound, declared_global) = _bound_names(scope_nodes)
+        saved = self._scope_locals
+        self._scope_locals = (set(saved) - declared_global) | (
+            (set(params) | bound) - declared_global
+        )
+        try:
+            for n in nodes:
+                self.visit(n)
+        finally:
+            self._scope_locals = saved
+
+    def _visit_function_header(self, args: ast.arguments) -> None:
+        # Default values and annotations are evaluated in the enclosing scope.
+        all_args = getattr(args, "posonlyargs", []) + args.args + args.kwonlyargs
+        all_args += [a for a in (args.vararg, args.kwarg) if a is not None]
+        for n in args.defaults + args.kw_defaults + [a.annotation for a in all_args]:
+            if n is not None:
+                self.visit(n)
+
+    def visit_Lambda(self, node: ast.Lambda) -> Any:
+        self._visit_function_header(node.args)
+        self._visit_in_scope(_arg_names(node.args), [node.body], [node.body])
+
+    def visit_FunctionDef(self, node: ast.FunctionDef) -> Any:
+        for n in node.decorator_list:
+            self.visit(n)
+        self._visit_function_header(node.args)
+        if node.returns is not None:
+            self.visit(node.returns)
+        self._visit_in_scope(_arg_names(node.args), node.body, node.body)
+
+    def visit_ClassDef(self, node: ast.ClassDef) -> Any:
+        for n in node.decorator_list + node.bases + [k.value for k in node.keywords]:
+            self.visit(n)
+        # The names bound in the body of a class are seen by the statements of the body, not by its methods.
+        statements = [
+            n for n in node.body if not isinstance(n, (ast.FunctionDef, ast.AsyncFunctionDef))
+        ]
+        for n in node.body:
+            if isinstance(n, (ast.FunctionDef, ast.AsyncFunctionDef)):
+                self.visit(n)
+            else:
+                self._visit_in_scope([], statements, [n])
+
+    def _visit_comprehension(self, node: Any) -> Any:
+        gens = node.generators
+        # The first iterable is evaluated in the enclosing scope.
+        self.visit(gens[0].iter)
+        inner: List[ast.AST] = [gens[0].target] + list(gens[0].ifs)
+        for g in gens[1:]:
+            inner += [g.target, g.iter] + list(g.ifs)
+        if isinstance(node, ast.DictComp):
+            inner += [node.key, node.value]
+        else:
+            inner.append(node.elt)
+        self._visit_in_scope([], [g.target for g in gens], inner)
+
+    visit_ListComp = _visit_comprehension
+    visit_SetComp = _visit_comprehension
+    visit_DictComp = _visit_comprehension
+    visit_GeneratorExp = _visit_comprehension
+
+
+class IntroVisitor(_ScopedVisitor):
     def __init__(
         self,
         start_mod: ModuleType,
@@ -285,7 +439,7 @@ class IntroVisitor(ast.NodeVisitor):
         current_fun_name = LocalVar(CanonicalPathUtils.last(fun_path))
         self._start_mod = start_mod
         self._gctx = gctx
-        self._function_var_names = set(function_var_names)
+        self._scope_locals = set(function_var_names)
         self._body_lines = function_body_lines
         self._input_sig = function_input_sig
         self._call_stack = call_stack
@@ -321,7 +475,7 @@ class IntroVisitor(ast.NodeVisitor):
             function_body_hash,
             self._input_sig,
             function_inters_sig,
-            self._function_var_names,
+            self._scope_locals,
             self._call_stack,
         )
         if fi_or_p is not None and isinstance(fi_or_p, FunctionInteractions):
@@ -348,12 +502,6 @@ class IntroVisitor(ast.NodeVisitor):
                 res.append((HK(f"dep_{p}"), key))
         return res
 
-    def visit_Assign(self, node: ast.Assign) -> Any:
-        targets = get_assign_targets(node)
-        if targets:
-            self._store_names.update(targets)
-        self.generic_visit(node)
-
     def visit_Name(self, node: ast.Name) -> Any:
         # _logger.debug(f"visit_name0: {node} {pformat(node)} {self._store_names}")
         # Look at names of variables that are names imported in the context of the function (in the module) but that are
@@ -363,7 +511,7 @@ class IntroVisitor(ast.NodeVisitor):
         if (
             node.id in self._start_mod.__dict__
             and node.id not in python_builtin_names
-            and LocalVar(node.id) not in self._function_var_names
+            and LocalVar(node.id) not in self._scope_locals
             and LocalVar(node.id) not in self._store_names
             and id(node) not in self._called_nodes
         ):
@@ -398,7 +546,7 @@ class IntroVisitor(ast.NodeVisitor):
                     function_body_hash,
                     self._input_sig,
                     function_inters_sig,
-                    self._function_var_names,
+                    self._scope_locals,
                     self._call_stack,
                 )
                 if fi_or_p is not None and isinstance(fi_or_p, FunctionInteractions):
@@ -420,7 +568,7 @@ class IntroVisitor(ast.NodeVisitor):
         return None
 
 
-class ExternalVarsVisitor(ast.NodeVisitor):
+class ExternalVarsVisitor(_ScopedVisitor):
     """
     Finds all the external variables of a function that should be hashed into the argument list.
     TODO: currently very crude, it does not look for assigned variables.
@@ -431,7 +579,7 @@ class ExternalVarsVisitor(ast.NodeVisitor):
     ):
         self._start_mod = start_mod
         self._gctx = gctx
-        self._local_vars = local_vars
+        self._scope_locals = set(local_vars)
         # TODO: rename to deps
         self.vars: Dict[LocalDepPath, ExternalDep] = {}
         # All the dependencies that are encountered but do not lead to an external dep.
@@ -467,7 +615,7 @@ class ExternalVarsVisitor(ast.NodeVisitor):
         # If it is a var that is already part of the function, do not introspect
         if len(local_dep_path.parts) == 1:
             v = str(local_dep_path)
-            if v in self._local_vars:
+            if v in self._scope_locals:
                 if debug:
                     _logger.debug(
                         "ExternalVarsVisitor:visit_Name: id: %s skipping, in vars",
@@ -541,7 +689,7 @@ class ExternalVarsVisitor(ast.NodeVisitor):
         if (
             parts is None
             or not isinstance(node.ctx, ast.Load)
-            or parts[0] in self._local_vars
+            or parts[0] in self._scope_locals
         ):
             self.generic_visit(node)
             return
@@ -578,25 +726,27 @@ def _attribute_chain(node: ast.AST) -> Optional[List[str]]:
 
 class LocalVarsVisitor(ast.NodeVisitor):
     """
-    A brute-force attempt to find all the variables defined in the scope of a module.
+    Finds all the variables defined in the scope of a function (or of a module): the names bound by
+    its statements. The names bound in the nested scopes (comprehensions, lambdas, nested functions and
+    classes) are local to these scopes; they are handled when these scopes are visited (_ScopedVisitor).
     """
 
     def __init__(self, existing_vars: List[str], fun_path: CanonicalPath):
         self.vars: Set[str] = set(existing_vars)
+        self._declared_global: Set[str] = set()
         self._fun_path = fun_path
 
-    def visit_AsyncFunctionDef(self, node: ast.AsyncFunctionDef) -> Any:
-        raise DDSException(
-            f"Function {self._fun_path} rejected by DDS because it includes a call to an "
-            f"async function. You cannot use async function with DDS",
-            DDSErrorCode.CONSTRUCT_NOT_SUPPORTED,
-        )
-
-    def visit_Name(self, node: ast.Name) -> Any:
-        # _logger.debug(f"visit_vars: {node.id} {node.ctx}")
-        if isinstance(node.ctx, ast.Store):
-            self.vars.add(node.id)
-        self.generic_visit(node)
+    def visit(self, node: ast.AST) -> Any:
+        for n in ast.walk(node):
+            if isinstance(n, ast.AsyncFunctionDef):
+                raise DDSException(
+                    f"Function {self._fun_path} rejected by DDS because it includes a call to an "
+                    f"async function. You cannot use async function with DDS",
+                    DDSErrorCode.CONSTRUCT_NOT_SUPPORTED,
+                )
+        (bound, declared_global) = _bound_names([node])
+        self._declared_global.update(declared_global)
+        self.vars = (self.vars | bound) - self._declared_global
 
 
 def _function_name(node: ast.AST) -> List[str]:
